@@ -95,8 +95,8 @@ func runC08(c c08Case) (out lib.Outcome) {
 		out.Violate(lib.Keyf("C08", "schema-derivation-error", e.name), "SchemaForStruct(%v): %v %v %v", e.typ, err1, err2, err3)
 		return
 	}
-	if s1 != s3 || s1 != s2 {
-		out.Violate("C08/schema-not-stable", "SchemaForStruct(%v) returned different schema objects on repeated calls (%p %p %p)", e.typ, s1, s2, s3)
+	if !s1.Equal(s3) || !s1.Equal(s2) || s1.String() != s3.String() || s1.String() != s2.String() {
+		out.Violate("C08/schema-not-stable", "SchemaForStruct(%v) returned different schemas on repeated calls: %s / %s / %s", e.typ, s1, s2, s3)
 	}
 	if rel, why := schemaRelation(s1, e.schema); rel != relEqual {
 		out.Violate(lib.Keyf("C08", "schema-derivation", e.name), "derived schema differs from the documented tag mapping: %s\n derived:    %s\n documented: %s", why, s1, e.schema)
